@@ -119,3 +119,22 @@ def replay(pid, path, BUILD, VERIF, REPO):
     print(json.dumps(d, indent=1))
     print('failed obligation without a concrete input (no-failing-input-found): re-run ./check %s to re-evaluate it' % pid)
     return 1
+
+
+def selfcheck(pid, cfg, BUILD, VERIF):
+    import main as M
+    src = M.sync_tree(pid)
+    pc = cfg[pid]
+    bad = 0
+    for unit in pc.get('verus', []) + pc.get('verus_thorough', []):
+        for wf in _witness_files(VERIF, unit):
+            results, tail, cmd = run_native_test(src, BUILD, _crate_of(wf), wf, unit, [])
+            if results is None:
+                print('witness file %s could not run:\n%s' % (wf, tail))
+                bad += 1
+                continue
+            for t, (st, msg) in sorted(results.items()):
+                print('%-60s %s %s' % (t, st, msg[:200]))
+                if st != 'ok':
+                    bad += 1
+    return 1 if bad else 0
